@@ -74,7 +74,8 @@ PROPS = {
         "assumed": ["attacker-supplied epochs are < u64::MAX and the epoch list is shorter than usize::MAX (overflow guards)"],
     },
     "C02": {
-        "verus": ["directory_lookup", ("verify_lookup", ["lookup_verify"])],
+        "verus": [("directory_lookup", ["Directory.lookup", "Directory.lookup_with_info", "Directory.get_lookup_info", "Directory.build_lookup_info", "Directory.derive_commitment_key",
+                                        "get_marker_version", "Azks.get_latest_epoch"]), ("verify_lookup", ["lookup_verify"])],
         "scope": "partial (server-side ASSEMBLY of a lookup answer + agreement with the verifier; not the tree contents): Directory::lookup reads the epoch record once and that one record decides the epoch of "
                  "the answer, the state filter, the tree the proofs are taken from and the root hash returned with them; get_lookup_info selects the newest state NOT NEWER than that epoch (LeqEpoch) and a label "
                  "without such a state gets an error, never a proof; build_lookup_info asks the VRF for exactly the triple (Fresh, v), (Fresh, 2^floor(log2 v)), (Stale, v) - the same `plog` the verifier's contract "
@@ -87,6 +88,22 @@ PROPS = {
                     "Directory is a model struct with the fields these functions touch; R-UTF8 makes the error-message choice opaque; the greedy preload only warms the cache (external)",
                     "<[T]>::to_vec is an element-wise clone (assumed std contract)"],
         "assumed": ["stored versions are >= 1 (precondition R_versions; `64 - leading_zeros(0) - 1` would underflow)"],
+    },
+    "C03": {
+        "verus": [("directory_lookup", ["Directory.create_single_update_proof", "Directory.key_history__tail", "Directory.derive_commitment_key", "lemma_min_max", "Azks.get_latest_epoch"]),
+                  ("verify_history", ["verify_single_update_proof"])],
+        "scope": "partial (server-side ASSEMBLY of a key-history answer from the selected states + agreement with the verifier; not the selection itself, not the tree contents): "
+                 "create_single_update_proof fills an update proof for one stored state with the fields the verifier checks - epoch/version/value of the state, the VRF proof and membership proof of "
+                 "(Fresh, version), for every version > 1 the membership proof and VRF proof of (Stale, version - 1) and for version 1 neither, and the commitment nonce; the tail of key_history (from the "
+                 "emptiness test to the end, R-SEGMENT) errors on an empty selection, produces exactly one update proof per selected state in order, computes the marker versions with the SAME "
+                 "get_marker_versions(oldest selected version, newest selected version, served epoch) the verifier calls, and for every past marker a VRF proof + membership proof of (Fresh, marker), for "
+                 "every future marker a VRF proof + NON-membership proof of (Fresh, marker), in the order of those lists, and returns them with (served epoch, root hash of the epoch record it was given). "
+                 "Not decided: the head of key_history (reading the states, the epoch <= current filter, newest-first sort, MostRecent(n) cut: closures over Vec), that the tree contains these leaves (C01), "
+                 "that honest membership / non-membership proofs verify (C05 completeness); create_single_update_proof re-reads the epoch record per update (T6: one request sees one storage state).",
+        "trusted": ["T4 the VRF as functions; R-UFCS; T6 storage / tree reads as functions of what one request sees",
+                    "the unit is verified as compiled WITHOUT the default feature preload_history (that block only warms the cache: an iterator chain over both marker lists)",
+                    "get_marker_versions is a function of its arguments (its contents are proved under C08)", "<[T]>::to_vec is an element-wise clone (assumed std contract)"],
+        "assumed": ["stored states satisfy 1 <= version <= epoch of the state (precondition of the segment: get_marker_versions needs start <= end <= epoch)"],
     },
     "C10": {
         "verus": ["directory_publish", ("tree_node", [TN + "get_appropriate_tree_node_from_storage", TN + "determine_node_to_get", "TreeNode.get_from_storage", "TreeNode.get_child_label", "TreeNode.get_child_node"])],
